@@ -147,6 +147,36 @@ def check_term_multiset(model, rep):
         raise AnalysisError(f'only {n} operand loops over _assparse found')
 
 
+def check_bincount(model, rep):
+    """R05.10: numpy.bincount(..., weights=w) adds the weights up in double precision whatever their type.  It stands for the exact sum
+    of the scattered values (numeric.accumulate = the value merge of Assemble and of a single sparse chunk) only for floating point
+    data: integers above 2**53 are rounded, complex values lose their imaginary part.  Every such call must therefore be dominated
+    by a test that the data are floating point."""
+    from sa.guards import facts_at
+    n = 0
+    for f in model.functions.values():
+        if isinstance(f.node, ast.Lambda) or f.module.short.startswith('testing'):
+            continue
+        for c in calls_in(f.node, nested=False):
+            if src(c.func) not in ('numpy.bincount', 'bincount') or not any(k.arg == 'weights' for k in c.keywords):
+                continue
+            n += 1
+            w = next(k.value for k in c.keywords if k.arg == 'weights')
+            base = w
+            while isinstance(base, (ast.Attribute, ast.Subscript, ast.Call)):
+                base = base.func if isinstance(base, ast.Call) else base.value
+            b = src(base)
+            stmt = next(s_ for s_ in find_stmts(f.body, lambda s_: any(x is c for x in ast.walk(s_))) if not isinstance(s_, (ast.If, ast.For, ast.While, ast.With, ast.Try)))
+            facts = facts_at(f.node, lambda s_: s_ is stmt)
+            accepted = {f"{b}.dtype.kind == 'f'", f'{b}.dtype == float', f'{b}.dtype == numpy.float64', f'{b}.dtype is float', f"'f' == {b}.dtype.kind", f'float == {b}.dtype'}
+            ok = any(src(node_) in accepted and v for node_, v in facts.facts.values())
+            rep.ob('R05.10', f.key, f.where(c), ok, f'bincount(weights={src(w)}) is reached for floating point data only' if ok else
+                   f'`numpy.bincount(..., weights={src(w)})` is not dominated by a test that `{b}` is floating point (found: {sorted(facts.facts)[:4]}): bincount sums in double precision, so integer entries above 2**53 are '
+                   'rounded (and complex ones lose their imaginary part) while the dense evaluation stays exact - listed values and dense array differ', statement='bincount-float-only')
+    if n < 1:
+        raise AnalysisError('R05.10: no numpy.bincount(..., weights=...) found (numeric.accumulate expected)')
+
+
 def run(model, rep, tier):
     rep.explanation = (
         'R05.1 def-use inside evaluable.Array.assparse: `flatindex, inverse = unique(Guard(concatenate(index_parts)), return_inverse=True)`; the index list starts from that flatindex and the values are '
@@ -173,6 +203,16 @@ def run(model, rep, tier):
     fi, inv = (src(e) for e in u[0].targets[0].elts) if ok else ('?', '?')
     rep.ob('R05.1', f.key, f.where(u[0]), ok, f'`{stmt_text(u[0])[:70]}` yields the sorted unique flat indices and the inverse map' if ok else
            'the merge no longer unpacks (unique indices, inverse) from unique(..., return_inverse=True)', statement='unique-call')
+    # every path that has parts to merge goes through that unique() call: a branch that hands the parts out unmerged ("already ordered") confuses
+    # sorted with unique and returns repeated index tuples
+    from sa.guards import paths_to
+    from sa.paths import Event
+    ps = paths_to(f.node, lambda s_: isinstance(s_, ast.Return), on_extra=lambda s_, st: (Event('UNIQUE', s_),) if s_ is u[0] else ())
+    skipping = [(p_, facts) for p_, idx, facts in ps if facts.get('value_parts') is True and not any(e.kind == 'UNIQUE' for e in p_.events[:idx])]
+    okp = bool(ps) and not skipping
+    rep.ob('R05.1', f.key, f.where(u[0]), okp, 'every path with parts to merge passes through the unique() merge' if okp else
+           f'a path with non-empty value_parts reaches the return without the unique() merge (under {sorted(k for k, v in skipping[0][1].items())[:5]}): index tuples that occur in several entries '
+           'are handed out repeatedly, so the listed values no longer denote the dense array (COO indices not unique, CSR columns repeated)', statement='merge-on-every-path')
     ok2 = ok and 'concatenate(index_parts)' in src(u[0].value)
     rep.ob('R05.1', f.key, f.where(u[0]), ok2, 'unique() is applied to the concatenation of ALL index parts' if ok2 else 'unique() is not applied to concatenate(index_parts)', statement='unique-over-all-parts')
     ind = [s for s in find_stmts(f.body, lambda s: isinstance(s, ast.Assign)) if src(s.targets[0]) == 'indices' and isinstance(s.value, ast.List) and len(s.value.elts) == 1]
@@ -279,5 +319,11 @@ def run(model, rep, tier):
     check_strides(model, rep)
     check_clusters(model, rep)
     check_term_multiset(model, rep)
+    rep.rule('R05.9', 'compress_indices (CSR row pointers) never returns on counts / end points of the row indices alone (rules/shortcuts.py)')
+    from rules import shortcuts
+    shortcuts.check(model, rep, 'R05.9', 'numeric:compress_indices', why='the number of stored entries and the first and last row do not determine the row pointers; rows with several or no entries get the pointers of other rows, and the CSR triple denotes another matrix than the COO data')
+    rep.require('R05.9', 2)
+    rep.rule('R05.10', 'numpy.bincount with weights (double precision accumulation) is reached for floating point data only')
+    check_bincount(model, rep)
     rep.require('R05.1', 5)
     rep.require('R05.4', 6)
